@@ -2,6 +2,7 @@ package message
 
 import (
 	"database/sql"
+	"errors"
 	"fmt"
 	"io"
 	"log"
@@ -869,7 +870,9 @@ func HandleStore(deps ServerDeps, conn net.Conn, tag string, parts []string, sta
 			// Move to Spam folder
 			err = MoveMessageToMailbox(userDB, messageID, state.SelectedMailboxID, "Spam", state.UserID, cleanedFlagsStr, internalDate)
 			if err != nil {
-				log.Printf("Failed to move message %d to Spam: %v", messageID, err)
+				if !errors.Is(err, ErrAlreadyInMailbox) {
+					log.Printf("Failed to move message %d to Spam: %v", messageID, err)
+				}
 			} else {
 				log.Printf("Auto-moved message %d to Spam folder (Junk flag added)", messageID)
 				// Send EXPUNGE notification to tell client the message is gone from this mailbox
@@ -887,7 +890,9 @@ func HandleStore(deps ServerDeps, conn net.Conn, tag string, parts []string, sta
 			// Move to INBOX
 			err = MoveMessageToMailbox(userDB, messageID, state.SelectedMailboxID, "INBOX", state.UserID, cleanedFlagsStr, internalDate)
 			if err != nil {
-				log.Printf("Failed to move message %d to INBOX: %v", messageID, err)
+				if !errors.Is(err, ErrAlreadyInMailbox) {
+					log.Printf("Failed to move message %d to INBOX: %v", messageID, err)
+				}
 			} else {
 				log.Printf("Auto-moved message %d to INBOX (NonJunk flag added)", messageID)
 				// Send EXPUNGE notification to tell client the message is gone from this mailbox
@@ -1131,6 +1136,9 @@ func HandleCopy(deps ServerDeps, conn net.Conn, tag string, parts []string, stat
 	deps.SendResponse(conn, fmt.Sprintf("%s OK COPY completed", tag))
 }
 
+// ErrAlreadyInMailbox is returned by MoveMessageToMailbox when source and destination are the same mailbox
+var ErrAlreadyInMailbox = errors.New("message is already in the destination mailbox")
+
 // MoveMessageToMailbox moves a message from the current mailbox to a destination mailbox
 // Returns the new sequence number in the destination mailbox, or 0 if failed
 func MoveMessageToMailbox(userDB *sql.DB, messageID int64, sourceMailboxID int64, destMailboxName string, userID int64, flags string, internalDate string) error {
@@ -1145,9 +1153,10 @@ func MoveMessageToMailbox(userDB *sql.DB, messageID int64, sourceMailboxID int64
 		return fmt.Errorf("destination mailbox not found: %w", err)
 	}
 
-	// Don't move if already in the destination mailbox
+	// Nothing to move if the message already is in the destination mailbox; tell the caller, which
+	// must not announce an expunge and still has to store the flags
 	if sourceMailboxID == destMailboxID {
-		return nil
+		return ErrAlreadyInMailbox
 	}
 
 	// Begin transaction
